@@ -82,6 +82,14 @@ impl Server {
                 std::thread::sleep(Duration::from_millis(50));
             }
             if up {
+                // the answer may have come from another server that won a race for this port: a
+                // process that failed to bind exits right away, so ours must still be running
+                std::thread::sleep(Duration::from_millis(300));
+                if let Ok(Some(_)) = s.child.try_wait() {
+                    up = false;
+                }
+            }
+            if up {
                 match s.login("admin", "admin") {
                     Some(t) => {
                         s.admin_token = t;
@@ -99,8 +107,22 @@ impl Server {
 
     /// Raw HTTP request; `path` is sent verbatim (already encoded by the caller).
     pub fn request(&self, method: &str, path: &str, token: Option<&str>, body: Option<&str>) -> std::io::Result<Resp> {
-        let mut stream = TcpStream::connect(("127.0.0.1", self.port))?;
-        stream.set_read_timeout(Some(Duration::from_secs(60)))?;
+        // connecting is retried (a loaded machine can refuse or time out a connection before
+        // the request exists, so a retry cannot apply anything twice)
+        let mut attempt = 0;
+        let mut stream = loop {
+            match TcpStream::connect_timeout(&std::net::SocketAddr::from(([127, 0, 0, 1], self.port)), Duration::from_secs(5)) {
+                Ok(s) => break s,
+                Err(e) => {
+                    attempt += 1;
+                    if attempt >= 40 {
+                        return Err(e);
+                    }
+                    std::thread::sleep(Duration::from_millis(250));
+                }
+            }
+        };
+        stream.set_read_timeout(Some(Duration::from_secs(120)))?;
         stream.set_write_timeout(Some(Duration::from_secs(20)))?;
         let mut req = format!("{method} {path} HTTP/1.1\r\nHost: 127.0.0.1:{}\r\nConnection: close\r\nAccept: application/json\r\n", self.port);
         if let Some(t) = token {
@@ -125,13 +147,19 @@ impl Server {
 
     pub fn call(&self, method: &str, path: &str, token: Option<&str>, body: Option<&Value>) -> Resp {
         let b = body.map(|v| v.to_string());
-        for _ in 0..3 {
+        // only a read-only request may be repeated after it was sent
+        let tries = if method == "GET" { 3 } else { 1 };
+        let mut last = String::new();
+        for _ in 0..tries {
             match self.request(method, path, token, b.as_deref()) {
                 Ok(r) => return r,
-                Err(_) => std::thread::sleep(Duration::from_millis(50)),
+                Err(e) => {
+                    last = e.to_string();
+                    std::thread::sleep(Duration::from_millis(200));
+                }
             }
         }
-        harness_fail(&format!("server does not answer {method} {path}"))
+        harness_fail(&format!("server does not answer {method} {path}: {last}"))
     }
 
     pub fn login(&self, user: &str, password: &str) -> Option<String> {
